@@ -54,6 +54,12 @@ def _design(rng, n, p, kind):
                     row.append(base[i] + rng.randint(-3, 3) / float(2 ** k) if j == 1
                                else float(rng.randint(-3, 3)))
                 X.append(row)
+        elif kind == "units":    # regressors in very different units: full rank, condition number 2**20 .. 2**36
+            X = [[rng.randint(-64, 64) / 16.0 for _ in range(p)] for _ in range(n)]
+            sc = [1.0] + [2.0 ** rng.choice([-18, -14, -10, 0, 10, 14, 18]) for _ in range(p - 1)]
+            if p >= 2 and max(sc) / min(sc) < 2.0 ** 20:
+                sc[1] = 2.0 ** 14; sc[-1] = sc[-1] if p == 2 else 2.0 ** -13
+            X = [[v * f for v, f in zip(row, sc)] for row in X]
         else:                    # "drift": polynomial-like columns (moderately ill conditioned)
             X = [[float((i - n // 2) ** j) / float(2 ** (2 * j)) for j in range(p)] for i in range(n)]
         if _rank(X) == p:
@@ -679,6 +685,13 @@ class C05(PropertyCheck):
                     X = A @ B
                     if rng.random() < 0.3:
                         X = X / rng.choice([2.0, 8.0, 0.5])
+                if p >= 2 and rng.random() < 0.35:
+                    # regressors in very different units (exact powers of two, so the exact rank is unchanged):
+                    # condition numbers 2**20 .. 2**36 - ill conditioned, but far from numerically rank deficient
+                    sc = [2.0 ** rng.choice([-18, -14, -10, 0, 10, 14, 18]) for _ in range(p)]
+                    if max(sc) / min(sc) < 2.0 ** 20:
+                        sc[0], sc[-1] = 2.0 ** 14, 2.0 ** -13
+                    X = X * np.array(sc)
                 cases.append({"kind": "matrices", "what": "rank", "X": X.tolist(),
                               "Y": _data(rng, n, rng.randint(1, 3), "int")})
         # -- AR(p) machinery, labs engines along every axis, fMRI GLM classes ----------------------
